@@ -27,7 +27,11 @@ def response_ops(rng, total=None, status=None, ct=None, with_cl=None, late_heade
     if with_cl is None:
         with_cl = rng.random() < 0.35
     if with_cl:
-        cl = total if rng.random() < 0.9 else max(0, total + rng.choice([-1, 1, 10]))
+        # a declared length may be too large (short body) but never smaller than what is written:
+        # behind ReverseProxy the inner handler cannot write more than the backend declared (the
+        # transport cuts the body at Content-Length), and net/http then rejects whole Write calls,
+        # which makes the outcome depend on how writes are grouped - not a property of the plugins
+        cl = total if rng.random() < 0.9 else total + rng.choice([1, 10])
         ops.append("sh:Content-Length:%d" % cl)
     if rng.random() < 0.08:
         ops.append("sh:Content-Encoding:%s" % rng.choice(["br", "gzip", "identity"]))
